@@ -1,3 +1,4 @@
+import re
 """C15: unit-aware math functions return the mathematically required value and unit."""
 from .. import core
 from ..convcheck import CXX_T
@@ -39,10 +40,14 @@ def run(ctx):
     items += [("trig", u, r) for u in ("Degrees", "Radians", "Revolutions", "Milli<Radians>") for r in reps]
     items += [("wrap", "Meters", "Feet", "f64"), ("wrap", "Inches", "Feet", "f32"), ("wrap", "Meters", "Meters", "f64"), ("wrap", "Milli<Meters>", "Yards", "f64")]
 
+    items += [("intwrap", r) for r in ("i8", "i16", "i32", "i64", "u8", "u16", "u32", "u64")]
+
     def make_src(b):
         L = [HDR, "int main(int argc, char **argv) {", "  uint64_t seed = argc > 1 ? (uint64_t)std::atoll(argv[1]) : 1;"]
         for it in b:
-            if it[0] == "round":
+            if it[0] == "intwrap":
+                L.append("  auv::int_wrappers<%s>();" % CXX_T[it[1]])
+            elif it[0] == "round":
                 L.append("  auv::rounding<%s, %s, %s>(seed);" % (it[1], CXX_T[it[2]], it[3]))
             elif it[0] == "inv":
                 L.append("  auv::inversion<%s, %s, %s>(seed);" % (CXX_T[it[1]], it[2], it[3]))
@@ -70,6 +75,50 @@ def run(ctx):
         res = fval(r["res"]) if "res" in r and "cls" in r["res"] else (str(wire_to_int(r["res"])) if "res" in r else fval(r["y"]))
         ctx.violation({"kind": r["k"], "fn": r.get("fn", r["k"]), "S": r.get("S", r.get("R")), "x": x, "ratio": mag_str(r["mag"])},
                       "%s(%s x=%s, ratio %s) = %s is not the mathematically required value [%s]" % (r.get("fn", r["k"]), r.get("S", r.get("R")), x, mag_str(r["mag"]), res, r["cfg"]), detail=b)
+    # result units of min / max / clamp when the operands have different units (quantities: common unit; points: common point unit of ALL operands)
+    import itertools
+    L = ['#include "au/au.hh"', '#include "au/math.hh"', '#include "au/units/meters.hh"', '#include "au/units/inches.hh"', '#include "au/units/celsius.hh"', '#include "au/units/kelvins.hh"',
+         '#include "au/units/fahrenheit.hh"', "#include <cstdio>", "#include <cmath>", "using namespace au;",
+         "template <class A, class B, class C> using ClampU = typename decltype(clamp(std::declval<A>(), std::declval<B>(), std::declval<C>()))::Unit;",
+         "template <class A, class B> using MinU = typename decltype(min(std::declval<A>(), std::declval<B>()))::Unit;",
+         "template <class A, class B> using MaxU = typename decltype(max(std::declval<A>(), std::declval<B>()))::Unit;"]
+    qsets = [("Meters", "Milli<Meters>", "Inches"), ("Centi<Meters>", "Meters", "Kilo<Meters>")]
+    psets = [("Celsius", "Kelvins", "Fahrenheit"), ("Meters", "Milli<Meters>", "Centi<Meters>"), ("Milli<Kelvins>", "Celsius", "Kelvins")]
+    k = 0
+    for kind, sets, wrap, cu in (("quantity", qsets, "Quantity<%s, double>", "CommonUnitT"), ("point", psets, "QuantityPoint<%s, double>", "CommonPointUnitT")):
+        for us in sets:
+            for p in itertools.permutations(us):
+                a, b, c = (wrap % u for u in p)
+                L.append('static_assert(std::is_same<ClampU<%s, %s, %s>, %s<%s, %s, %s>>::value, "mm%d clamp %s %s");' % (a, b, c, cu, p[0], p[1], p[2], k, kind, "/".join(p)))
+                L.append('static_assert(std::is_same<MinU<%s, %s>, %s<%s, %s>>::value && std::is_same<MaxU<%s, %s>, %s<%s, %s>>::value, "mm%d minmax %s %s");' % (a, b, cu, p[0], p[1], a, b, cu, p[0], p[1], k, kind, "/".join(p[:2])))
+                k += 1
+    L += ["int main() {", "  int bad = 0;",
+          "  bad += std::fabs(clamp(celsius_pt(50.0), kelvins_pt(300.0), fahrenheit_pt(100.0)).in(kelvins_pt) - (100.0 + 459.67) * 5.0 / 9.0) > 1e-9;",
+          "  bad += std::fabs(clamp(celsius_pt(5.0), kelvins_pt(300.0), fahrenheit_pt(100.0)).in(kelvins_pt) - 300.0) > 1e-9;",
+          "  bad += std::fabs(clamp(meters_pt(2.0), meters_pt(1.0), milli(meters_pt)(1500.0)).in(milli(meters_pt)) - 1500.0) > 1e-9;",
+          "  bad += std::fabs(min(celsius_pt(20.0), fahrenheit_pt(70.0)).in(kelvins_pt) - 293.15) > 1e-9;",
+          "  bad += std::fabs(max(inches(30.0), milli(meters)(700.0)).in(milli(meters)) - 762.0) > 1e-9;",
+          '  std::printf("%d\\n", bad);', "  return 0;", "}"]
+    srcm = ctx.write("minmaxclamp.cc", "\n".join(L) + "\n")
+    for cfg in cfgs[:2]:
+        exe = ctx.path("minmaxclamp_" + cfg)
+        rc, o = ctx.cxx(srcm, exe, cfg=cfg, opt="-O0", flags=(["-ferror-limit=0"] if cfg.startswith("c") else ["-fmax-errors=0"]))
+        ctx.programs += 1
+        if rc != 0:
+            hits = sorted(set(re.findall(r'mm\d+ (clamp|minmax) (quantity|point) ([\w<>/]+)', o)))
+            errs = [l for l in o.splitlines() if "error" in l]
+            if hits:
+                for fn, kind, us in hits[:12]:
+                    ctx.violation({"kind": "result unit", "fn": fn, "operands": kind, "units": us}, "%s on %ss in %s: the result unit is not the common %sunit of the operands [%s]" % (
+                        fn, kind, us, "point " if kind == "point" else "", cfg), detail=None)
+            elif core.first_error_in_au(errs):
+                ctx.violation({"kind": "min/max/clamp rejected"}, "min/max/clamp on operands of different units do not compile [%s]: %s" % (cfg, "\n".join(errs[:3])[:400]), detail=errs[:6])
+            else:
+                raise core.ToolError("min/max/clamp TU does not compile: " + "\n".join(errs[:5]))
+        else:
+            nb = int(ctx.run_bin(exe).strip() or "0")
+            if nb:
+                ctx.violation({"kind": "min/max/clamp value", "cfg": cfg}, "%d of 5 min/max/clamp values on operands of different units are wrong [%s]" % (nb, cfg), detail=None)
     # compile-time refusal of integral inversions with K < 10^6
     pre = HDR.replace('#include "math_sweep.hh"\n', '#include "au/au.hh"\n#include "au/math.hh"\n')
     pch = {cfg: ctx.pch(cfg, "c15", pre) for cfg in cfgs[:2]}
